@@ -431,6 +431,10 @@ func zzvDrawSpecs(nspec, nforms int) []zzvSpec {
 		zzvNum[2*k+1] = verifrt.NondetI64("b")
 		verifrt.Assume(zzvNum[2*k] >= 0)
 		verifrt.Assume(zzvNum[2*k+1] >= 0)
+		if lim := zzvLimit(); lim > 0 {
+			verifrt.Assume(zzvNum[2*k] < lim)
+			verifrt.Assume(zzvNum[2*k+1] < lim)
+		}
 		specs[k].a, specs[k].b = zzvNum[2*k], zzvNum[2*k+1]
 		if specs[k].form == zzvFormNegEnd {
 			verifrt.Assume(specs[k].b >= 1)
@@ -639,9 +643,22 @@ func zzvCheck(q *zzvRequest, size int64, w *zzvRW) {
 	verifrt.Reach("end")
 }
 
+// zzvLimit is the exclusive upper bound of the file size and of the numbers in the header: 2^BITS
+// (tier parameter; 63 = every non-negative int64).
+func zzvLimit() int64 {
+	bits := verifrt.Param("BITS", 63)
+	if bits >= 63 {
+		return -1
+	}
+	return int64(1) << uint(bits)
+}
+
 func zzvSize() int64 {
 	size := verifrt.NondetI64("size")
 	verifrt.Assume(size >= 0)
+	if lim := zzvLimit(); lim > 0 {
+		verifrt.Assume(size < lim)
+	}
 	return size
 }
 
